@@ -107,6 +107,25 @@ theorem sysLoop_spec (kind iovcnt total : Nat) (fd : Bool) (tag off : Nat) :
         · simp only [sysLoop, he, if_false]; intro h; constructor <;> omega
         · intro _; rfl
 
+theorem sum_take_le (l : List Nat) (n : Nat) : (l.take n).sum ≤ l.sum := by
+  conv => rhs; rw [← List.take_append_drop n l]
+  rw [List.sum_append]; omega
+
+def twPost (r : Int × S) : Int × S :=
+  if r.1 ≥ 0 then r
+  else if r.1 = -(EAGAIN : Int) ∨ r.1 = -(ENOBUFS : Int) then (UV_EAGAIN, r.2)
+  else r
+
+theorem twPost_spec (r : Int × S) :
+    (twPost r).2 = r.2 ∧ (0 ≤ (twPost r).1 → (twPost r).1 = r.1) ∧ ((twPost r).1 < 0 → r.1 < 0) := by
+  unfold twPost
+  split
+  · exact ⟨rfl, fun _ => rfl, fun h => h⟩
+  · split
+    · refine ⟨rfl, ?_, fun _ => by omega⟩
+      intro h; simp [UV_EAGAIN] at h
+    · exact ⟨rfl, fun _ => rfl, fun h => h⟩
+
 theorem tryWriteOnce_spec (s : S) (lens : List Nat) (send : Bool) (tag off : Nat) :
     ∃ (k : Nat) (env' : List Outcome) (tr : List Ev),
       (tryWriteOnce s lens send tag off).2 =
@@ -114,6 +133,317 @@ theorem tryWriteOnce_spec (s : S) (lens : List Nat) (send : Bool) (tag off : Nat
       (0 ≤ (tryWriteOnce s lens send tag off).1 →
         (tryWriteOnce s lens send tag off).1 = (k : Int) ∧ k ≤ lens.sum) ∧
       ((tryWriteOnce s lens send tag off).1 < 0 → k = 0) := by
-  sorry
+  have heq : tryWriteOnce s lens send tag off = twPost (sysLoop
+    (if send then 2 else if (if lens.length > IOV_MAX then IOV_MAX else lens.length) = 1 then 0 else 1)
+    (if lens.length > IOV_MAX then IOV_MAX else lens.length)
+    ((lens.take (if lens.length > IOV_MAX then IOV_MAX else lens.length)).sum) send tag off s.env s) := rfl
+  obtain ⟨k, env', tr, h1, h2, h3⟩ := sysLoop_spec
+    (if send then 2 else if (if lens.length > IOV_MAX then IOV_MAX else lens.length) = 1 then 0 else 1)
+    (if lens.length > IOV_MAX then IOV_MAX else lens.length)
+    ((lens.take (if lens.length > IOV_MAX then IOV_MAX else lens.length)).sum) send tag off s.env s
+  have hle := sum_take_le lens (if lens.length > IOV_MAX then IOV_MAX else lens.length)
+  rw [heq]
+  obtain ⟨p1, p2, p3⟩ := twPost_spec (sysLoop
+    (if send then 2 else if (if lens.length > IOV_MAX then IOV_MAX else lens.length) = 1 then 0 else 1)
+    (if lens.length > IOV_MAX then IOV_MAX else lens.length)
+    ((lens.take (if lens.length > IOV_MAX then IOV_MAX else lens.length)).sum) send tag off s.env s)
+  refine ⟨k, env', tr, ?_, ?_, ?_⟩
+  · rw [p1]; exact h1
+  · intro h
+    have e := p2 h
+    rw [e] at h ⊢
+    have := h2 h
+    exact ⟨this.1, by omega⟩
+  · intro h; exact h3 (p3 h)
+
+/-! ### the invariant -/
+
+/-- bytes still to be sent by the requests of the write queue, in order -/
+def pend : List Req → List (Nat × Nat)
+  | [] => []
+  | r :: l => bytes r.id r.sent (rem r) ++ pend l
+
+@[simp] theorem pend_nil : pend [] = [] := rfl
+@[simp] theorem pend_cons (r : Req) (l : List Req) : pend (r :: l) = bytes r.id r.sent (rem r) ++ pend l := rfl
+theorem pend_append (a b : List Req) : pend (a ++ b) = pend a ++ pend b := by
+  induction a with
+  | nil => rfl
+  | cons r l ih => simp [ih]
+
+@[simp] theorem unsent_nil : unsent [] = 0 := rfl
+@[simp] theorem unsent_cons (r : Req) (l : List Req) : unsent (r :: l) = rem r + unsent l := by
+  simp [unsent]
+@[simp] theorem unsent_append (a b : List Req) : unsent (a ++ b) = unsent a + unsent b := by
+  simp [unsent]
+
+theorem pend_of_unsent_zero (l : List Req) (h : unsent l = 0) : pend l = [] := by
+  induction l with
+  | nil => rfl
+  | cons r l ih =>
+    simp only [unsent_cons] at h
+    have h1 : rem r = 0 := by omega
+    have h2 : unsent l = 0 := by omega
+    simp [h1, ih h2]
+
+structure WF (s : S) : Prop where
+  wqs_eq : s.wqs = ((unsent (s.pq ++ s.cq ++ s.wq) : Nat) : Int)
+  wq_ok : ∀ r ∈ s.wq, r.widx ≤ r.bufs.length ∧ r.error = 0 ∧ r.freed = false ∧ (r.send = true → r.nok = 0)
+  sent_ok : ∀ r ∈ s.pq ++ s.cq ++ s.wq, r.sent + rem r = r.total
+  done_ok : ∀ r ∈ s.pq ++ s.cq, (r.freed = true → rem r = 0) ∧ (r.error = 0 → r.freed = true)
+  acc_eq : s.accepted = s.cbs.map (·.id) ++ (s.pq ++ s.cq ++ s.wq).map (·.id)
+  acc_lt : s.accepted.Pairwise (· < ·) ∧ ∀ i ∈ s.accepted, i < s.nextId
+  closing_ok : s.closing = true →
+    s.fdOpen = false ∧ s.pending = false ∧ s.pollout = false ∧ s.writable = false
+  shut_ok : s.shut = true → s.osAtShut = some s.os ∧ s.wq = [] ∧ s.writable = false
+  called_ok : s.shutdownCalled = true → s.writable = false
+  req_ok : s.shutdownReq = true → s.writable = false
+  os_ok : s.hardErr = true ∨
+    ∃ rest, s.submitted = s.os ++ rest ∧ (s.closing = false → rest = pend s.wq)
+  cbs_ok : ∀ c ∈ s.cbs, c.status = 0 → c.sent = c.total
+  mon_ok : s.obsBad = false ∧ s.shutCbEarly = [] ∧ s.shutSysPending = [] ∧ ∀ p ∈ s.fdSent, p.2 = 0
+  closed_ok : s.closed = true → s.closing = true ∧ s.wq = [] ∧ s.cq = []
+
+theorem rem_freed (r : Req) (b : Bool) : rem { r with freed := b } = rem r := rfl
+theorem rem_error (r : Req) (e : Int) : rem { r with error := e } = rem r := rfl
+
+theorem writeIter_wf (s : S) (r : Req) (rest : List Req) (h : WF s) (hq : s.wq = r :: rest)
+    (hc : s.closing = false) :
+    WF (writeIter s r rest).1 ∧ (writeIter s r rest).1.closing = false ∧
+    (writeIter s r rest).1.pq = s.pq := by
+  obtain ⟨k, env', tr, e1, e2, e3⟩ := tryWriteOnce_spec s (r.bufs.drop r.widx) r.send r.id r.sent
+  have hr := h.wq_ok r (by rw [hq]; simp)
+  have hsent := h.sent_ok r (by rw [hq]; simp)
+  have hwqs := h.wqs_eq
+  have hacc := h.acc_eq
+  have hshut : s.shut = false := by
+    cases hs : s.shut with
+    | false => rfl
+    | true => have := (h.shut_ok hs).2.1; rw [hq] at this; cases this
+  rw [hq] at hwqs hacc
+  simp only [unsent_append, unsent_cons] at hwqs
+  unfold writeIter
+  simp only [e1]
+  by_cases hn : (tryWriteOnce s (r.bufs.drop r.widx) r.send r.id r.sent).1 ≥ 0
+  · obtain ⟨ek, hk⟩ := e2 hn
+    have hk' : k ≤ rem r := hk
+    have ru := reqUpdate_spec { r with send := false, sent := r.sent + k, nok := r.nok + 1 } k
+      (by simp only []; omega) hk'
+    simp only [ek, Int.toNat_natCast, ge_iff_le, Int.natCast_nonneg, if_true]
+    generalize reqUpdate { r with send := false, sent := r.sent + k, nok := r.nok + 1 } k = u at ru ⊢
+    obtain ⟨u1, u2, u3, u4, u5, u6, u7, u8, u9, u10, u11, u12⟩ := ru
+    have u1 : u.1.bufs.length = r.bufs.length := u1
+    have u2 : u.1.widx ≤ r.bufs.length := u2
+    have u3' : rem u.1 + k = rem r := u3
+    have u4 : u.2 = true ↔ u.1.widx = r.bufs.length := u4
+    have u6 : u.1.id = r.id := u6
+    have u7 : u.1.error = r.error := u7
+    have u8 : u.1.freed = r.freed := u8
+    have u9 : u.1.total = r.total := u9
+    have u10 : u.1.sent = r.sent + k := u10
+    have u11 : u.1.nok = r.nok + 1 := u11
+    have u12 : u.1.send = false := u12
+    clear u3
+    have hos : s.hardErr = true ∨ ∃ rest', s.submitted = (s.os ++ bytes r.id r.sent k) ++ rest' ∧
+        rest' = bytes r.id (r.sent + k) (rem u.1) ++ pend rest := by
+      rcases h.os_ok with hh | ⟨rest', hr1, hr2⟩
+      · exact Or.inl hh
+      · right
+        have := hr2 hc
+        rw [hq, pend_cons, bytes_split r.id r.sent k (rem r) hk'] at this
+        refine ⟨_, ?_, rfl⟩
+        rw [hr1, this]
+        have : rem r - k = rem u.1 := by omega
+        simp [this, List.append_assoc]
+    by_cases hd : u.2 = true
+    · have hz := u5 hd
+      simp only [hd, if_true, finish]
+      refine ⟨?_, hc, by first | rfl | trivial⟩
+      exact {
+        wqs_eq := by
+          simp only [unsent_append, unsent_cons, unsent_nil, rem_freed]
+          omega
+        wq_ok := fun x hx => h.wq_ok x (by rw [hq]; exact List.mem_cons_of_mem _ hx)
+        sent_ok := by
+          intro x hx
+          simp only [List.mem_append, List.mem_singleton] at hx
+          rcases hx with (hx | hx | hx) | hx
+          · exact h.sent_ok x (by simp [hx])
+          · exact h.sent_ok x (by simp [hx])
+          · subst hx; show u.1.sent + rem u.1 = u.1.total; omega
+          · exact h.sent_ok x (by rw [hq]; simp [hx])
+        done_ok := by
+          intro x hx
+          simp only [List.mem_append, List.mem_singleton] at hx
+          rcases hx with hx | hx | hx
+          · exact h.done_ok x (by simp [hx])
+          · exact h.done_ok x (by simp [hx])
+          · subst hx; exact ⟨fun _ => by rw [rem_freed]; exact hz, fun _ => rfl⟩
+        acc_eq := by
+          rw [hacc]; simp [u6]
+        acc_lt := h.acc_lt
+        closing_ok := by intro hcl; simp only [] at hcl; rw [hc] at hcl; cases hcl
+        shut_ok := by intro hs; simp only [] at hs; rw [hshut] at hs; cases hs
+        called_ok := h.called_ok
+        req_ok := h.req_ok
+        os_ok := by
+          rcases hos with hh | ⟨rest', hr1, hr2⟩
+          · exact Or.inl hh
+          · right
+            refine ⟨rest', hr1, fun _ => ?_⟩
+            rw [hr2, hz]; simp
+        cbs_ok := h.cbs_ok
+        mon_ok := by
+          refine ⟨h.mon_ok.1, h.mon_ok.2.1, h.mon_ok.2.2.1, ?_⟩
+          intro p hp
+          simp only [] at hp
+          split at hp
+          · rename_i hsend
+            rcases List.mem_cons.1 hp with hp | hp
+            · rw [hp]; exact hr.2.2.2 hsend
+            · exact h.mon_ok.2.2.2 p hp
+          · exact h.mon_ok.2.2.2 p hp
+        closed_ok := by
+          intro hcl
+          have := (h.closed_ok hcl).1
+          rw [hc] at this; cases this }
+    · have hd' : u.2 = false := by cases hu : u.2 <;> simp_all
+      have hlt : u.1.widx ≤ u.1.bufs.length := by omega
+      simp only [hd', Bool.false_eq_true, if_false]
+      refine ⟨?_, hc, by first | rfl | trivial⟩
+      exact {
+        wqs_eq := by
+          simp only [unsent_append, unsent_cons]
+          omega
+        wq_ok := by
+          intro x hx
+          rcases List.mem_cons.1 hx with hx | hx
+          · subst hx
+            exact ⟨hlt, by rw [u7]; exact hr.2.1, by rw [u8]; exact hr.2.2.1, fun hs => by rw [u12] at hs; cases hs⟩
+          · exact h.wq_ok x (by rw [hq]; exact List.mem_cons_of_mem _ hx)
+        sent_ok := by
+          intro x hx
+          simp only [List.mem_append, List.mem_cons] at hx
+          rcases hx with (hx | hx) | hx | hx
+          · exact h.sent_ok x (by simp [hx])
+          · exact h.sent_ok x (by simp [hx])
+          · subst hx; omega
+          · exact h.sent_ok x (by rw [hq]; simp [hx])
+        done_ok := h.done_ok
+        acc_eq := by
+          rw [hacc]; simp [u6]
+        acc_lt := h.acc_lt
+        closing_ok := by intro hcl; simp only [] at hcl; rw [hc] at hcl; cases hcl
+        shut_ok := by intro hs; simp only [] at hs; rw [hshut] at hs; cases hs
+        called_ok := h.called_ok
+        req_ok := h.req_ok
+        os_ok := by
+          rcases hos with hh | ⟨rest', hr1, hr2⟩
+          · exact Or.inl hh
+          · right
+            refine ⟨rest', hr1, fun _ => ?_⟩
+            rw [hr2, pend_cons, u6, u10]
+        cbs_ok := h.cbs_ok
+        mon_ok := by
+          refine ⟨h.mon_ok.1, h.mon_ok.2.1, h.mon_ok.2.2.1, ?_⟩
+          intro p hp
+          simp only [] at hp
+          split at hp
+          · rename_i hsend
+            rcases List.mem_cons.1 hp with hp | hp
+            · rw [hp]; exact hr.2.2.2 hsend
+            · exact h.mon_ok.2.2.2 p hp
+          · exact h.mon_ok.2.2.2 p hp
+        closed_ok := by
+          intro hcl
+          have := (h.closed_ok hcl).1
+          rw [hc] at this; cases this }
+  · have hneg : (tryWriteOnce s (r.bufs.drop r.widx) r.send r.id r.sent).1 < 0 := by omega
+    have hk0 := e3 hneg
+    subst hk0
+    simp only [hn, if_false, bytes_zero, List.append_nil]
+    by_cases hag : (tryWriteOnce s (r.bufs.drop r.widx) r.send r.id r.sent).1 = UV_EAGAIN
+    · simp only [hag, if_true]
+      refine ⟨?_, hc, by first | rfl | trivial⟩
+      exact {
+        wqs_eq := h.wqs_eq
+        wq_ok := h.wq_ok
+        sent_ok := h.sent_ok
+        done_ok := h.done_ok
+        acc_eq := h.acc_eq
+        acc_lt := h.acc_lt
+        closing_ok := by intro hcl; simp only [] at hcl; rw [hc] at hcl; cases hcl
+        shut_ok := by intro hs; simp only [] at hs; rw [hshut] at hs; cases hs
+        called_ok := h.called_ok
+        req_ok := h.req_ok
+        os_ok := h.os_ok
+        cbs_ok := h.cbs_ok
+        mon_ok := h.mon_ok
+        closed_ok := h.closed_ok }
+    · simp only [hag, if_false, finish]
+      refine ⟨?_, hc, by first | rfl | trivial⟩
+      exact {
+        wqs_eq := by
+          simp only [unsent_append, unsent_cons, unsent_nil, rem_error]
+          omega
+        wq_ok := fun x hx => h.wq_ok x (by rw [hq]; exact List.mem_cons_of_mem _ hx)
+        sent_ok := by
+          intro x hx
+          simp only [List.mem_append, List.mem_singleton] at hx
+          rcases hx with (hx | hx | hx) | hx
+          · exact h.sent_ok x (by simp [hx])
+          · exact h.sent_ok x (by simp [hx])
+          · subst hx; exact hsent
+          · exact h.sent_ok x (by rw [hq]; simp [hx])
+        done_ok := by
+          intro x hx
+          simp only [List.mem_append, List.mem_singleton] at hx
+          rcases hx with hx | hx | hx
+          · exact h.done_ok x (by simp [hx])
+          · exact h.done_ok x (by simp [hx])
+          · subst hx
+            refine ⟨fun hf => ?_, fun he => ?_⟩
+            · have : r.freed = true := hf
+              rw [hr.2.2.1] at this; cases this
+            · have : (tryWriteOnce s (r.bufs.drop r.widx) r.send r.id r.sent).1 = 0 := he
+              omega
+        acc_eq := by
+          rw [hacc]; simp
+        acc_lt := h.acc_lt
+        closing_ok := by intro hcl; simp only [] at hcl; rw [hc] at hcl; cases hcl
+        shut_ok := by intro hs; simp only [] at hs; rw [hshut] at hs; cases hs
+        called_ok := h.called_ok
+        req_ok := h.req_ok
+        os_ok := Or.inl rfl
+        cbs_ok := h.cbs_ok
+        mon_ok := h.mon_ok
+        closed_ok := by
+          intro hcl
+          have := (h.closed_ok hcl).1
+          rw [hc] at this; cases this }
+
+theorem writeLoop_wf : ∀ (c : Nat) (s : S), WF s → s.closing = false →
+    WF (writeLoop c s) ∧ (writeLoop c s).closing = false ∧ (writeLoop c s).pq = s.pq := by
+  intro c
+  induction c with
+  | zero =>
+    intro s h hc
+    unfold writeLoop
+    split
+    · exact ⟨h, hc, rfl⟩
+    · rename_i r rest hq
+      have := writeIter_wf s r rest h hq hc
+      split <;> exact this
+  | succ c ih =>
+    intro s h hc
+    unfold writeLoop
+    split
+    · exact ⟨h, hc, rfl⟩
+    · rename_i r rest hq
+      have := writeIter_wf s r rest h hq hc
+      split
+      · obtain ⟨w1, w2, w3⟩ := this
+        have := ih _ w1 w2
+        exact ⟨this.1, this.2.1, this.2.2.trans w3⟩
+      · exact this
 
 end UvModel.StreamW
